@@ -15,6 +15,11 @@ def run(ctx):
     # version bounds left in the caller's Config must not leak into the hello of a predefined parrot
     for lo, hi in ((0x301, 0x302), (0x301, 0x301), (0x303, 0x303), (0x304, 0x304), (0x302, 0x304)):
         cases += [{"id": i, "sni": snis[0], "n": 1, "omit": True, "tag": "cfgvers", "cfg_min": lo, "cfg_max": hi} for i in ids]
+    # a hello built once and marshalled again for another server name (SetSNI between BuildHandshakeState and Handshake):
+    # shorter, longer, same length; the second encoding must again be exactly the spec's, nothing of the first may survive
+    renames = [("example.com", "a.io"), ("example.com", "exbmple.com"), ("example.com", snis[1]), (snis[1], "example.com"),
+               ("example.com", "an-even-longer-server-name-than-before." + snis[1])]
+    cases += [{"id": i, "sni": a, "sni2": b, "n": 1, "omit": True, "tag": "rename"} for i in ids for a, b in renames]
     evs = [e for e in ctx.drv("hellos", {"cases": cases}) if e["ev"] == "Hello"]
     # PSK parrots without OmitEmptyPsk and without a session legitimately emit nothing / or an error: only
     # hellos that were actually sent are judged (C03 speaks about the ClientHello sent).
